@@ -25,6 +25,9 @@
                  directory it leaves to exist) and results are normalised like `Path.resolve()`.
    resolve.name  {name: ANY string, parent: str|null, sub?: str, cwd, builtin, files, dirs, links?} → {ok: str} | {err: str}
                  (`getPipelinePathNR`: `f'{name}.yaml'` read the way pathlib reads it)
+   resolve.kinds {name, parent: abs str|null, sub?: str, cwd, builtin, dirs, links?, kinds: [[path, kind]…]} → {ok: str} | {err: str}
+                 (`getPipelinePathK` over the kind map: kind ∈ absent|file|dir|linkFile|linkDir|dangling|fifo of the ENTRY at the
+                 candidate path as written, default absent; `links` only serve `parent.resolve()` / `.resolve()` of the result)
 -/
 import Lean.Data.Json
 import PypyrModel.Json
@@ -364,6 +367,32 @@ def handle (op : String) (j : Json) : Except String Json := do
     pure (Json.arr ((runSub fs {} ops).map fun r => match r with
       | .ok p => Json.mkObj [("ok", Json.str (pathStr p))]
       | .error e => Json.mkObj [("err", Json.str e)]).toArray)
+  | "kinds" =>
+    let cwd ← pathOfStr (← (← j.getObjVal? "cwd").getStr?)
+    let builtin ← pathOfStr (← (← j.getObjVal? "builtin").getStr?)
+    let dirs ← (← strList (← j.getObjVal? "dirs")).mapM pathOfStr
+    let links ← linksOfJson j
+    let fs := fsOfLinks cwd builtin [] dirs links
+    let kindOf (t : String) : Except String FKind :=
+      match t with
+      | "absent" => pure .absent | "file" => pure .file | "dir" => pure .dir | "linkFile" => pure .linkFile
+      | "linkDir" => pure .linkDir | "dangling" => pure .dangling | "fifo" => pure .fifo
+      | _ => .error s!"unknown kind {t}"
+    let kinds ← (← (← j.getObjVal? "kinds").getArr?).toList.mapM fun e => do
+      match (← e.getArr?).toList with
+      | [.str a, .str k] => pure ((← pathOfStr a), (← kindOf k))
+      | _ => .error "bad kinds entry"
+    let kind : Path → FKind := fun p => (kinds.lookup p).getD .absent
+    let name ← nameOfStr (← (← j.getObjVal? "name").getStr?)
+    let sub ← match j.getObjVal? "sub" with
+      | .error _ => pure ["pipelines"]
+      | .ok v => do
+        let parts := (← v.getStr?).splitOn "/"
+        if parts.any badSeg then throw "sub-directory outside the domain" else pure parts
+    let parent ← optPath (← j.getObjVal? "parent")
+    match getPipelinePathK fs kind sub name (parent.map fs.realpath) with
+    | .ok p => pure (Json.mkObj [("ok", Json.str (pathStr (fs.realpath p)))])
+    | .error e => pure (Json.mkObj [("err", Json.str e)])
   | _ => .error s!"unknown op {op}"
 
 end Pypyr.OpResolve
